@@ -188,8 +188,14 @@ func (s *setupWorker) setup(ctx context.Context, m transport.Metadata) error {
 		zap.String("session_username", string(connectPkt.Username)),
 	)
 	L(ctx).Debug("session connected")
-	if metadata, err := s.state.SessionMetadatas().ByClientID(session.ClientID()); err == nil {
-		err := s.state.SessionMetadatas().Delete(metadata.SessionID)
+	// Several records may be listed for the client id (a stale one whose removal is still in
+	// flight besides the current one): all of them are superseded by this connection.
+	for {
+		metadata, err := s.state.SessionMetadatas().ByClientID(session.ClientID())
+		if err != nil {
+			break
+		}
+		err = s.state.SessionMetadatas().Delete(metadata.SessionID)
 		if err != nil {
 			return err
 		}
